@@ -534,7 +534,8 @@ def run(ctx):
                 if "dist_over_size" in meas:
                     worst["dist_over_size"] = max(worst["dist_over_size"], meas["dist_over_size"])
                 if fl:
-                    report(fl[0], {"line": c["init_line"][:200000], "case": name, "all_failures": fl[:5]})
+                    report(fl[0], {"line": c["init_line"][:200000], "case": name, "all_failures": fl[:5], "outward_faces": c["outward"],
+                                   "l_min": c["l_min"], "size": c["size"], "triangulation": c["tri"]})
         elif o["status"] == "exc":
             st["init_exceptions"] += 1
             if o["cls"] != "intialization_exception":
@@ -725,6 +726,16 @@ def replay(ctx):
         mt = source_constants()["max_nb_tries"] or 10
         if o["status"] == "ok":
             fails += topo_oracle(o["faces"]) + outward_oracle(o["pts"], o["faces"])[0]
+            if not fails and fi.get("outward_faces") and fi.get("triangulation"):
+                w = line.split()
+                nn = int(w[4])
+                xs = [unhex(z) for z in w[6:6 + 3 * nn]]
+                ipts = [xs[3 * i:3 * i + 3] for i in range(nn)]
+                meas = {}
+                tri_in = [tuple(t) for t in U.triangulate_fan0(fi["outward_faces"])]
+                fails += approx_oracle(ipts, fi["outward_faces"], tri_in, o["pts"], o["faces"], fi["l_min"], fi["size"], meas)
+                print("against the input: relative volume error %.3g, box shrink / size %.3g, node distance / size %.3g (l_min / size %.3g)" % (
+                    meas.get("vol_rel_err", float("nan")), meas.get("box_shrink_over_size", float("nan")), meas.get("dist_over_size", float("nan")), meas.get("r", float("nan"))))
             if o["tries"] >= mt:
                 fails.append("cell returned after %d failed attempts" % o["tries"])
             if not fails and fi.get("hand_made"):
